@@ -4,6 +4,7 @@ package peer
 
 import (
 	"context"
+	"errors"
 	"fmt"
 	"sort"
 	"strings"
@@ -34,6 +35,10 @@ import (
 // the hub signals every Publish call; Chan() is called each time the goroutine
 // (re-)enters its select, so its call count tells when the goroutine is parked
 // again. Wall-clock time is used only as a hang detector on failure paths.
+// Environment fault: on the model's PublishFail / GracefulStopFail step the hub
+// makes exactly that Publish call return an error and queues nothing. The
+// period the node currently asks the clock for (NewTicker and every Reset) is
+// part of the projection at every step (offSet).
 
 const c18Hang = 5 * time.Second
 
@@ -126,13 +131,20 @@ type c18Hub struct {
 	expect map[string]string   // label of the next publish of a node ("R" by a tick, "U" by a stop)
 	recv   map[string]bool     // node currently receives (it is up)
 	muted  map[string]bool     // node crashed: whatever it still says is lost
+	fail   map[string]bool     // the next Publish of this node fails (transient backend error)
 	dead   bool
 	pubSig chan string
 }
 
-func (h *c18Hub) publish(from, topic, msg string) {
+var c18ErrPublish = errors.New("c18: injected transient publish failure")
+
+func (h *c18Hub) publish(from, topic, msg string) (err error) {
 	h.mu.Lock()
-	if !h.dead && !h.muted[from] {
+	if h.fail[from] && !h.dead {
+		h.fail[from] = false
+		h.expect[from] = ""
+		err = c18ErrPublish
+	} else if !h.dead && !h.muted[from] {
 		kind := h.expect[from]
 		if kind == "" {
 			kind = "unexpected:" + msg
@@ -149,6 +161,7 @@ func (h *c18Hub) publish(from, topic, msg string) {
 	case h.pubSig <- from:
 	default:
 	}
+	return err
 }
 
 func (h *c18Hub) waitPublish(from string) bool {
@@ -176,8 +189,7 @@ type c18Subscription struct{}
 func (c18Subscription) Close() {}
 
 func (b *c18Bus) Publish(ctx context.Context, topic, message string) error {
-	b.hub.publish(b.id, topic, message)
-	return nil
+	return b.hub.publish(b.id, topic, message)
 }
 func (b *c18Bus) Subscribe(ctx context.Context, topic string, cb pubsub.SubscriptionCallback) pubsub.Subscription {
 	b.hub.mu.Lock()
@@ -194,6 +206,7 @@ type c18Node struct {
 	id, tok, addr string
 	p             *RedisPubsubPeers
 	clock         *c18Clock
+	pub           *c18Ticker // the refresh ticker
 	met           *metrics.MockMetrics
 	done          chan struct{}
 	doneClosed    bool
@@ -258,7 +271,7 @@ func (h *c18Harness) Reset(init map[string]any) error {
 	}
 	h.fc = clockwork.NewFakeClock()
 	h.hub = &c18Hub{subs: map[string]c18Sub{}, queue: map[string][]c18Msg{}, expect: map[string]string{},
-		recv: map[string]bool{}, muted: map[string]bool{}, pubSig: make(chan string, 256)}
+		recv: map[string]bool{}, muted: map[string]bool{}, fail: map[string]bool{}, pubSig: make(chan string, 256)}
 	h.nodes = map[string]*c18Node{}
 	h.status = map[string]string{}
 	for _, id := range h.ids {
@@ -315,7 +328,8 @@ func (h *c18Harness) start(id string) error {
 		return fmt.Errorf("node %s: the Ready goroutine never waits on a ticker of the injected clock", id)
 	}
 	// do the code's constants fit the model's?
-	d := time.Duration(n.clock.pubTicker().d.Load())
+	n.pub = n.clock.pubTicker()
+	d := time.Duration(n.pub.d.Load())
 	ttl := n.p.peers.TTL
 	delay := time.Duration(h.D) * h.unit
 	switch {
@@ -395,12 +409,13 @@ func (h *c18Harness) Apply(a map[string]any) (err error) {
 	switch verifkit.Str(a, "name") {
 	case "Start":
 		return h.start(id)
-	case "PublishTick":
+	case "PublishTick", "PublishFail":
 		n := h.nodes[id]
-		t := n.clock.pubTicker()
+		t := n.pub
 		c0 := t.calls.Load()
 		h.hub.mu.Lock()
 		h.hub.expect[id] = "R"
+		h.hub.fail[id] = verifkit.Str(a, "name") == "PublishFail"
 		h.hub.mu.Unlock()
 		select {
 		case t.out <- h.fc.Now():
@@ -413,11 +428,12 @@ func (h *c18Harness) Apply(a map[string]any) (err error) {
 		}
 	case "Deliver":
 		return h.deliver(verifkit.Str(a, "to"), verifkit.Str(a, "from"), verifkit.Str(a, "kind"))
-	case "GracefulStop":
+	case "GracefulStop", "GracefulStopFail":
 		n := h.nodes[id]
 		h.leave(id, "stopped")
 		h.hub.mu.Lock()
 		h.hub.expect[id] = "U"
+		h.hub.fail[id] = verifkit.Str(a, "name") == "GracefulStopFail"
 		h.hub.mu.Unlock()
 		n.doneClosed = true
 		close(n.done)
@@ -446,6 +462,7 @@ func (h *c18Harness) Project() (out any, err error) {
 	}
 	peers := map[string]any{}
 	cbs := []string{}
+	off := []string{}
 	for _, id := range h.ids {
 		set := []string{}
 		count := 0
@@ -467,6 +484,13 @@ func (h *c18Harness) Project() (out any, err error) {
 			}
 		}
 		peers[id] = map[string]any{"addrSet": set, "len": count}
+		// the refresh period the node currently asks the clock for (NewTicker or a
+		// later Reset) must lie in the envelope the model's ticker firings assume
+		if n := h.nodes[id]; n != nil && n.pub != nil && h.status[id] == "up" {
+			if d := time.Duration(n.pub.d.Load()); d < time.Duration(h.rlo)*h.unit || d > time.Duration(h.rhi)*h.unit {
+				off = append(off, id)
+			}
+		}
 		if n := h.nodes[id]; n != nil && h.observeCb && n.cbCount.Load() > n.cbSeen {
 			cbs = append(cbs, id)
 		}
@@ -483,7 +507,7 @@ func (h *c18Harness) Project() (out any, err error) {
 	for id, s := range h.status {
 		st[id] = s
 	}
-	m["status"], m["peers"], m["pendingSet"], m["cbSet"] = st, peers, pending, cbs
+	m["status"], m["peers"], m["pendingSet"], m["cbSet"], m["offSet"] = st, peers, pending, cbs, off
 	if h.timing != "" {
 		m["timing"] = h.timing
 	}
